@@ -32,6 +32,7 @@ type c15Describe struct {
 
 func init() {
 	register(&Prop{ID: "C15", Run: runC15, Replay: map[string]func(*Env, json.RawMessage){
+		"gen-attr": func(e *Env, raw json.RawMessage) { c15GenAttr1(e, decode[int](raw)) },
 		"interval": func(e *Env, raw json.RawMessage) {
 			c := decode[c15Interval](raw)
 			for _, q := range theory.AllQualities {
@@ -344,5 +345,71 @@ func runC15(e *Env) {
 		e.R.NonTrivial(fmt.Sprint("d", i))
 	})
 	e.R.AddPart(ev.Part{Name: "describe-cli", Enumerated: fmt.Sprintf("real binary: `info attr describe` 21 roots x %d attributes x {flat, sharp} (complete); `info chord describe` %d roots x 46 look-ups x 2", len(attrNames), nroots), Executions: int64(len(cases)), Exhaustive: true})
+	c15GenAttr(e)
 	e.R.Sample(map[string]any{"describe": "info attr describe -t Diminished1 -r C", "oracle": "applied B, octave_diff -1: 11 - 12 = 0 + (-1)"})
+}
+
+// c15GenAttr: the attribute lists `crd gen attr -d N` generates name every interval below the
+// bound once, under its English name, with a notation that reads back as that interval.
+func c15GenAttr(e *Env) {
+	bounds := []int{1, 2, 3, 8, 9, 15, 16, 21, 22, 23, 64, 65, 100, 200}
+	mc.ParFor(len(bounds), func(bi int) { c15GenAttr1(e, bounds[bi]) })
+	e.R.AddPart(ev.Part{Name: "gen-attr", Enumerated: fmt.Sprintf("real binary: `gen attr -d N` for N in %v: every entry is the English name of an existing interval with a notation that reads back as it, none twice, every perfect/major/minor/augmented/diminished interval up to the last listed number present", bounds), Executions: int64(len(bounds)), Exhaustive: true})
+}
+
+func c15GenAttr1(e *Env, d int) {
+	{
+		e.R.Eval(1)
+		fail := func(class, msg string) {
+			e.R.Fail(ev.Fail{Class: class, Msg: fmt.Sprintf("crd gen attr -d %d: %s", d, msg), Kind: "gen-attr", Case: d})
+		}
+		r := cli.In("", "gen", "attr", "-d", fmt.Sprint(d))
+		if !r.OK() {
+			fail("C15/gen-attr/fails", firstLine(r.Stderr))
+			return
+		}
+		var list []dict.AttrDef
+		if err := yaml.Unmarshal(r.Stdout, &list); err != nil {
+			fail("C15/gen-attr/output", err.Error())
+			return
+		}
+		seen := map[string]bool{}
+		maxN := 0
+		for _, a := range list {
+			want, ok := dict.AttributeByEnglishName(a.Name)
+			if !ok {
+				fail("C15/gen-attr/name", fmt.Sprintf("%q is not the name of an interval that exists", a.Name))
+				return
+			}
+			got, ok := theory.ParseNotation(a.Degree)
+			if !ok || got != want {
+				fail("C15/gen-attr/notation", fmt.Sprintf("%s is given the notation %q, which reads as %v", a.Name, a.Degree, got))
+				return
+			}
+			if seen[a.Name] {
+				fail("C15/gen-attr/duplicate", a.Name+" is listed twice")
+				return
+			}
+			seen[a.Name] = true
+			if want.Num > maxN {
+				maxN = want.Num
+			}
+		}
+		if d >= 2 && (maxN < d-1 || maxN > d) {
+			fail("C15/gen-attr/bound", fmt.Sprintf("the list reaches number %d", maxN))
+			return
+		}
+		for n := 1; n <= maxN; n++ {
+			for _, q := range []theory.Quality{theory.Perfect, theory.Major, theory.Minor, theory.Augmented, theory.Diminished} {
+				i := theory.Interval{Num: n, Q: q}
+				name := map[theory.Quality]string{theory.Perfect: "Perfect", theory.Major: "Major", theory.Minor: "Minor", theory.Augmented: "Augmented", theory.Diminished: "Diminished"}[q] + fmt.Sprint(n)
+				if i.Exists() && !seen[name] {
+					fail("C15/gen-attr/missing", fmt.Sprintf("%s exists below the bound and is not listed", i))
+					return
+				}
+			}
+		}
+		e.R.NonTrivialN(int64(len(list)))
+		e.R.Outcome(fmt.Sprint(len(list)))
+	}
 }
